@@ -109,7 +109,8 @@ def obligations(tier, seed):
     rnd = random.Random("c01/%s" % seed)
     tpl = corpus.build(tier, seed)
     budget = 5 if tier == "quick" else 6
-    obs = [TableOb(k, st, "ansi", "tabs", budget, seed) for k, st in tpl]
+    _b = lambda k: min(budget, 4) if k.startswith("rand/") else budget     # depth-4 random compositions carry many slots
+    obs = [TableOb(k, st, "ansi", "tabs", _b(k), seed) for k, st in tpl]
     raw = [RawTableOb(n, d, q, e) for n, (d, q, e) in RAW.items()]
     if tier == "quick":
         keep = [o for o in obs if "/plain" in o.key or "nodata" in o.key or "merge" in o.key or "update" in o.key or "scalar" in o.key]
